@@ -313,7 +313,9 @@ func (c *harnessConstraint) ProcessPostCommit(state boltz.UntypedEntityChangeSta
 func openHarnessDb(w *wiring, dir string) (*harnessDb, error) {
 	w.derive()
 	path := filepath.Join(dir, fmt.Sprintf("h-%d.db", os.Getpid()))
-	_ = os.Remove(path)
+	if !harnessKeepFile { // store_c16w2.go: restart on the existing content
+		_ = os.Remove(path)
+	}
 	db, err := boltz.Open(path, "root")
 	if err != nil {
 		return nil, err
